@@ -183,3 +183,21 @@ Proof.
   exists (sv_state sv_probe_acts), (ServerClosed.closed_labels 200 (sv_state sv_probe_acts)), (sv_closed_end (sv_state sv_probe_acts)).
   vm_compute. repeat split.
 Qed.
+
+(* ---------- product level, closed system (sv; Proofs/SysTerm.v): the probe settles, with termination ----------
+   Every closed continuation (internal rules of both components, wire transfers, handler returns) of a reachable state of
+   the product is bounded by [SysTerm.sys_measure] (Props/C01.v Sys_closed_terminates) and can be extended to a quiescent
+   state (Sys_closed_reaches_final); wherever it ends quiescent the probe is settled as in C11_sys_probe - no quiescence
+   hypothesis about an unnamed state is left: the state is "where the closed system stops". *)
+From Goat Require Proofs.SysTerm.
+Theorem C11_sys_probe_closed : forall pol ls (s : Sys.state) ls' s' c k,
+  Sys.lrun pol Sys.init ls = Some s -> SysTerm.sys_crun pol s ls' = Some s' -> Sys.quiescent s' = true ->
+  nth_error (calls (Sys.cl s')) c = Some k -> k_unary k = true ->
+  k_pc k = PRet \/ k_pc k = PParked \/
+  (k_pc k = PWait /\ ctx_done (k_ctx k) = false /\ cbuf (k_chan k) = None /\ cclosed (k_chan k) = false /\
+   Sys.s2c s' = [] /\ Sys.c2s s' = []).
+Proof.
+  intros pol ls s ls' s' c k H Hr Q Hn Hu. apply (C11_sys_probe pol (ls ++ ls') s' c k); auto.
+  rewrite SysTerm.sys_lrun_app, H. now apply SysTerm.sys_crun_lrun.
+Qed.
+Print Assumptions C11_sys_probe_closed.
